@@ -15,11 +15,19 @@ for strictly increasing longitudes spanning less than a period, anywhere on the 
 `width(source cell) + width(target cell) <= period/2` for every pair of cells (a superset).
 Outside the theorem's domain (e.g. 3 -> 4 equispaced longitudes) `_periodic_overlap`
 under-estimates the overlap although its stated precondition (no cell wider than period/2) holds:
-the real code does NOT conserve there.  That is reported through `ctx.fail` with the structural
+the real code need NOT conserve there (some pairs outside the domain are conserved all the same: the
+evidence counts both).  A lost integral is reported through `ctx.fail` with the structural
 key `lon-conservation-wide-cells` (a recorded finding), from a fixed witness evaluated on every run
 and from every generated pair outside the domain on which conservation actually fails.
+
+Vertical: conservation is claimed over the covered range only, for sorted source and target bounds
+(`vertical_conservation`; `hs`, `ht` of `regridHybridToSigma_conservation`).  The hybrid boundaries
+`a/sp + b` are sorted only above a surface pressure that depends on the coefficient set (303.3 hPa for
+ECMWF137, 264.5 hPa for UFS127: below any surface pressure on Earth); columns with unsorted
+boundaries are counted, only the hypothesis-free statements (non-negative weights, unit row sums)
+are asserted on them, and `probe_hybrid_threshold` records on every run what the real code does
+below the threshold (explicitly NOT claimed).
 """
-import os
 from fractions import Fraction
 
 import numpy as np
@@ -252,9 +260,8 @@ def run(ctx: common.Ctx):
   from dinosaur import sigma_coordinates as sc
   import dinoutil
 
-  extra = ['DinoProofs/Lemmas/Regrid.lean', 'Dino/Regrid.lean']
-  if os.path.exists(os.path.join(common.LEAN, 'DinoProofs/Lemmas/RegridCyclic.lean')):
-    extra.append('DinoProofs/Lemmas/RegridCyclic.lean')
+  extra = ['DinoProofs/Lemmas/Regrid.lean', 'DinoProofs/Lemmas/RegridCyclic.lean', 'Dino/Regrid.lean',
+           'Dino/RegridDrv.lean']
   ctx.lean('DinoProofs.Properties.C16', 'C16.txt', extra_files=extra)
 
   rng = ctx.rng
@@ -400,6 +407,7 @@ def run(ctx: common.Ctx):
   # ---- 5. the regridder objects: weights and __call__ with NaN patterns, both skipna modes
   npairs = ctx.n(11, 100)         # quick: 10 forced pairs + 1 random pair
   pairs = []
+  not_equispaced, equi_not_applied = [], []
   for pi, (ss, ts, tag) in enumerate(grid_pair_specs(rng, npairs, ctx.n(10, 12))):
     gs, gt = make_grid(sh, *ss), make_grid(sh, *ts)
     geo = Geometry(gs.longitudes, gs.latitudes, gt.longitudes, gt.latitudes)
@@ -416,6 +424,21 @@ def run(ctx: common.Ctx):
     ctx.obligation(f'theorem domain inside the probed domain for {ss}->{ts}', 'hypothesis',
                    (not geo.thm_domain) or geo.lon_domain,
                    'gap_s + gap_t <= period/2 implies width_s + width_t <= period/2 and gaps below period/2')
+    # Grid.longitudes are the equispaced points `off + i P/n` of lonWeights_conservative_equispaced, whose
+    # hypothesis is 1/n_s + 1/n_t <= 1/2 (strictly inside it the float gaps satisfy gap_s + gap_t <= P/2 too;
+    # on the boundary, 4 <-> 4 and 3 <-> 6, rounding decides); hmd: the float % reduces into [0, P) by whole periods
+    for spec, g_ in ((ss, gs), (ts, gt)):
+      lon = np.asarray(g_.longitudes, dtype=float)
+      if np.abs(lon - (spec[3] + np.arange(spec[0]) * (TWO_PI / spec[0]))).max() > 1e-12 * max(1.0, abs(spec[3])):
+        not_equispaced.append(spec)
+      red = lon % TWO_PI
+      hmd_ok = bool(((red >= 0) & (red < TWO_PI)).all() and
+                    np.abs(lon - np.round((lon - red) / TWO_PI) * TWO_PI - red).max() < 1e-12 * max(1.0, abs(spec[3])))
+      ctx.dist[f'hyp:hmd (float % reduces into [0, P) by whole periods) holds={hmd_ok}'] += 1
+    equi_hyp = Fraction(1, ss[0]) + Fraction(1, ts[0])
+    ctx.dist[f'hyp:lonWeights_conservative_equispaced 1/n_s + 1/n_t {"<" if equi_hyp < Fraction(1, 2) else "=" if equi_hyp == Fraction(1, 2) else ">"} 1/2'] += 1
+    if equi_hyp < Fraction(1, 2) and not geo.thm_domain:
+      equi_not_applied.append((ss, ts))
     lat_ok = all((np.diff(x) > 0).all() and x[0] >= -HALF_PI and x[-1] <= HALF_PI for x in (gs.latitudes, gt.latitudes))
     ctx.obligation(f'hypotheses of latWeights_conservative hold for {ss}->{ts}', 'hypothesis', lat_ok,
                    'latitudes strictly increasing inside [-pi/2, pi/2]')
@@ -442,6 +465,11 @@ def run(ctx: common.Ctx):
             f'{fvec(gs.latitudes)} {fvec(gt.latitudes)} {optmat(f)}', 'ConservativeRegridder.__call__', inp, out,
             'optmat')
         probe_nan(ctx, geo, f, out, skip, inp)
+
+  ctx.obligation('Grid.longitudes are the equispaced points off + i P/n of lonWeights_conservative_equispaced',
+                 'hypothesis', not not_equispaced, f'not equispaced: {not_equispaced[:3]}')
+  ctx.obligation('1/n_s + 1/n_t < 1/2 implies the hypotheses of lonWeights_conservative_of_offset_points on the doubles',
+                 'hypothesis', not equi_not_applied, f'pairs: {equi_not_applied[:3]}')
 
   # ---- 6. the decision rule of one cell around the isclose threshold
   for ci in range(ctx.n(40, 200)):
@@ -515,7 +543,18 @@ def run(ctx: common.Ctx):
   for (hc, sig, sp, f, out, tag) in hybrid_cases:
     probe_vertical(ctx, jnp, vi, hc, sig, sp, f, out, tag)
   probe_vertical_raw(ctx, jnp, vi)
+  probe_hybrid_threshold(ctx, jnp, vi, sc)
   probe_wide_cells(ctx, jnp, hi, sh)
+  n_uns = {k: ctx.dist.get(f'vertical:{k}:source-increasing=False', 0) for k in ('hybrid', 'raw')}
+  n_all = {k: n_uns[k] + ctx.dist.get(f'vertical:{k}:source-increasing=True', 0) for k in ('hybrid', 'raw')}
+  ctx.notes.append(f'vertical: {n_uns["hybrid"]} of {n_all["hybrid"]} generated hybrid columns (random coefficient sets, '
+                   f'sp 500..1100) and {n_uns["raw"]} of {n_all["raw"]} raw columns have unsorted source boundaries: the '
+                   'hypothesis hs of vertical_conservation / regridHybridToSigma_conservation fails there, bounds and '
+                   'conservation are NOT claimed and not asserted on them (only non-negative weights and unit row sums '
+                   'of the finite rows, and the model/code correspondence); all other columns are asserted')
+  ctx.obligation('vertical: enough hybrid columns satisfy the hypothesis hs (sorted a/sp + b)', 'hypothesis',
+                 n_all['hybrid'] - n_uns['hybrid'] >= max(1, n_all['hybrid'] // 6),
+                 f'{n_all["hybrid"] - n_uns["hybrid"]} of {n_all["hybrid"]} columns sorted')
   ctx.notes.append('gating: weights-oracle, overlap-based bounds, conservation and the NaN placement probes are '
                    'asserted on pairs with width_s + width_t <= period/2 for all cells and circular gaps below '
                    'period/2 (a superset of the domain of lonWeights_conservative_of_offset_points, offsets '
@@ -528,7 +567,12 @@ def run(ctx: common.Ctx):
     ctx.leanchecker(['DinoProofs.Properties.C16'])
   return ctx.finish(RULE, 'theorems are about the Lean model Dino.Regrid over an ordered field; sin enters as an '
                     'arbitrary (strictly) monotone function; float rounding is outside the theorems '
-                    '(tolerance 1e-9 in the correspondence, 1e-11 in the probes)')
+                    '(tolerance 1e-9 in the correspondence, 1e-11 in the probes); the hypothesis hmd of the offset-grid '
+                    'theorems (% reduces into [0, P)) is proved for the exact % only: the float % can return P itself '
+                    '(-1e-20 % (2 pi) == 2 pi); known findings (known_findings.json): skipna-false-sliver-overlap and '
+                    'lon-conservation-wide-cells (outside gap_s + gap_t <= period/2 the real code need not conserve); '
+                    'vertical conservation is over the covered range, for sorted bounds: unsorted hybrid boundaries '
+                    '(ECMWF137 below 303.3 hPa, UFS127 below 264.5 hPa) are not claimed')
 
 
 # --------------------------------------------------------------------------
@@ -679,6 +723,12 @@ def probe_vectors(ctx, jnp, hi):
                     dict(inp, x=x.tolist()))
 
 
+def covered_thm(cells_b, lo, hi):
+  """`covered t lo hi = clamp t.1 t.2 hi - clamp t.1 t.2 lo` of the theorems, for the cells of `cells_b`."""
+  c0, c1 = cells_b[:-1], cells_b[1:]
+  return np.minimum(np.maximum(hi, c0), c1) - np.minimum(np.maximum(lo, c0), c1)
+
+
 def vertical_checks(ctx, w, sb, tb, x, out, inp, key):
   """Oracle checks of one column: w[target, source], bounds sb (source), tb (target)."""
   gap = lin_gap(tb, sb)
@@ -687,10 +737,25 @@ def vertical_checks(ctx, w, sb, tb, x, out, inp, key):
   inc = bool((np.diff(sb) > 0).all() and (np.diff(tb) > 0).all())
   ctx.dist[f'{key}:source-increasing={inc}'] += 1
   if not inc:
+    # hypotheses `hs` / `ht` of vertical_conservation fail: bounds and conservation are NOT claimed.  What needs
+    # no hypothesis (intervalOverlap_nonneg, verticalWeights_rows) is still asserted; the column is counted and
+    # the count goes to the evidence notes (run()).
+    if w is not None:
+      fin = np.isfinite(w).all(1)
+      ctx.expect((w[fin] >= 0).all(), 'vertical-weights-nonneg', 'negative vertical weight (unsorted bounds)', inp)
+      ctx.expect(np.abs(w[fin].sum(1) - 1).max(initial=0) < 1e-12, 'vertical-rows-sum-to-one',
+                 'finite rows of the vertical weight matrix do not sum to one (unsorted bounds)', inp)
     return
   covered = cov_t > 1e-9
   empty = (gap < -1e-9).all(1)
   n_amb = int((~covered & ~empty).sum())
+  # the weights of the theorem (`covered`: the part of each layer inside the range of the other vector),
+  # computed from the bounds alone: the oracle's overlap sums must agree with them
+  cov_t_thm, cov_s_thm = covered_thm(tb, sb[0], sb[-1]), covered_thm(sb, tb[0], tb[-1])
+  span = max(abs(sb).max(), abs(tb).max(), 1.0)
+  ctx.expect(np.abs(cov_t - cov_t_thm).max() < 1e-12 * span * len(sb) and
+             np.abs(cov_s - cov_s_thm).max() < 1e-12 * span * len(tb), 'vertical-covered-oracle',
+             'row / column sums of the interval overlaps are not the covered thicknesses clamp(hi) - clamp(lo)', inp)
   if w is not None:
     ctx.expect((w[covered] >= 0).all(), 'vertical-weights-nonneg', 'negative vertical weight', inp)
     ctx.expect(np.abs(w[covered].sum(1) - 1).max(initial=0) < 1e-12, 'vertical-rows-sum-to-one',
@@ -707,10 +772,79 @@ def vertical_checks(ctx, w, sb, tb, x, out, inp, key):
     hi_, lo_ = np.where(over, xb, -np.inf).max(1), np.where(over, xb, np.inf).min(1)
     ctx.expect(((out <= hi_ + 1e-9) & (out >= lo_ - 1e-9))[covered].all(), 'vertical-bounds',
                'vertical output outside the range of the overlapping inputs', inp)
-    lhs, rhs = (cov_t * np.where(covered, out, 0)).sum(), (cov_s * x).sum()
-    ctx.expect(abs(lhs - rhs) < 1e-10 * (cov_s * np.abs(x)).sum() + (2e-9 * n_amb + 1e-13) * np.abs(x).max(),
+    # the statement of vertical_conservation, with the theorem's weights
+    lhs, rhs = (cov_t_thm * np.where(covered, out, 0)).sum(), (cov_s_thm * x).sum()
+    ctx.expect(abs(lhs - rhs) < 1e-10 * (cov_s_thm * np.abs(x)).sum() + (2e-9 * n_amb + 1e-13) * np.abs(x).max(),
                'vertical-conservation',
                f'thickness-weighted integral over the covered range not conserved: {lhs!r} vs {rhs!r}', inp)
+
+
+# about the pressure at the summit of Everest (hPa): no surface pressure on Earth is lower
+PHYS_MIN_SP = 330.0
+UNSORTED_KEY = 'hybrid-bounds-unsorted'
+
+
+def sorted_threshold(a, b):
+  """Smallest surface pressure from which a/sp + b is non-decreasing: max over the interfaces with da < 0 of
+  -da/db (infinite when db <= 0 there)."""
+  da, db = np.diff(np.asarray(a, dtype=float)), np.diff(np.asarray(b, dtype=float))
+  with np.errstate(all='ignore'):
+    thr = np.where(da < 0, np.where(db > 0, -da / db, np.inf), 0.0)
+  return float(thr.max(initial=0.0))
+
+
+def probe_hybrid_threshold(ctx, jnp, vi, sc):
+  """The unchecked hypothesis `hs` on the operational level sets.  ECMWF137 / UFS127: a/sp + b is sorted exactly
+  from a threshold surface pressure upwards.  The real regrid_hybrid_to_sigma is run just above the threshold
+  (conservation asserted), at 300 hPa and 2 % below the threshold (explicitly NOT claimed: the measurement goes
+  to the evidence notes).  Were the threshold inside the physical range of surface pressures (>= 330 hPa) the
+  loss would be a finding (`hybrid-bounds-unsorted`)."""
+  sig = sc.SigmaCoordinates.equidistant(8)
+  tb = np.asarray(sig.boundaries, dtype=float)
+  for name in ('ECMWF137', 'UFS127'):
+    hc = getattr(vi.HybridCoordinates, name)()
+    a, b = np.asarray(hc.a_boundaries, dtype=float), np.asarray(hc.b_boundaries, dtype=float)
+    thr = sorted_threshold(a, b)
+    sp = np.array([[thr * (1 + 1e-3), 300.0, 0.98 * thr]])
+    x = 250 + 10 * np.sin(np.arange(hc.layers, dtype=float))
+    inp0 = dict(levels=name, sigma_boundaries=tb.tolist(), field='250 + 10 sin(k)')
+    ctx.case(('hyb-threshold', name), nontrivial=True)
+    ctx.obligation(f'{name}: threshold of the hypothesis hs (a/sp + b sorted) is finite', 'hypothesis',
+                   np.isfinite(thr) and thr > 0, f'sorted iff surface pressure >= {thr!r} hPa')
+    with ctx.impl('probe-exception', inp0):
+      out = np.asarray(vi.regrid_hybrid_to_sigma(jnp.asarray(np.repeat(x[:, None, None], 3, 2)), hc, sig, jnp.asarray(sp)))
+      meas = []
+      for j in range(3):
+        sb = a / sp[0, j] + b
+        n_uns = int((np.diff(sb) < 0).sum())
+        inp = dict(inp0, surface_pressure=float(sp[0, j]))
+        if j == 0:
+          ctx.expect(n_uns == 0, 'hybrid-threshold', f'{name}: boundaries unsorted above the computed threshold', inp)
+          vertical_checks(ctx, None, sb, tb, x, out[:, 0, j], inp, 'vertical:threshold')
+          continue
+        if n_uns == 0:        # 300 hPa is above the threshold of this set
+          vertical_checks(ctx, None, sb, tb, x, out[:, 0, j], inp, 'vertical:threshold')
+          meas.append(f'sp={sp[0, j]:.6g} hPa: sorted, conserved')
+          continue
+        ctx.dist['vertical:threshold:source-increasing=False'] += 1
+        # sb[0] / sb[-1] stay the extreme boundaries (the inversions are inside): the weights of the theorem,
+        # signed for the inverted layers
+        cov_t, cov_s = covered_thm(tb, sb[0], sb[-1]), covered_thm(sb, tb[0], tb[-1])
+        lhs, rhs = float((cov_t * out[:, 0, j]).sum()), float((cov_s * x).sum())
+        rel = abs(lhs - rhs) / float((np.abs(cov_s) * np.abs(x)).sum())
+        meas.append(f'sp={sp[0, j]:.6g} hPa: {n_uns} inverted layers, sum_t covered_t*out_t = {lhs!r} vs '
+                    f'sum_s covered_s*x_s = {rhs!r} (relative difference {rel:.3e})')
+        if thr >= PHYS_MIN_SP and rel > 1e-9:
+          what = (f'regrid_hybrid_to_sigma({name}) at surface pressure {sp[0, j]!r} hPa: boundaries a/sp + b unsorted '
+                  f'({n_uns} inverted layers), thickness-weighted integral {rhs!r} -> {lhs!r}')
+          if any(k['key'] == UNSORTED_KEY for k in ctx.known):
+            ctx.fail(UNSORTED_KEY, what, inp)
+          else:
+            ctx.notes.append('NOT RECORDED YET (would be the finding hybrid-bounds-unsorted): ' + what)
+    ctx.notes.append(f'hybrid levels {name} -> 8 equidistant sigma layers, field 250 + 10 sin(k): a/sp + b is sorted iff '
+                     f'sp >= {thr:.6g} hPa (below the physical range, >= {PHYS_MIN_SP:g} hPa: no finding); below the '
+                     'threshold conservation is NOT claimed (hypothesis hs of regridHybridToSigma_conservation fails) '
+                     'and the real code gives: ' + '; '.join(meas))
 
 
 def probe_vertical(ctx, jnp, vi, hc, sig, sp, f, out, tag):
